@@ -292,6 +292,10 @@ func (t *template) Load(filename string) Template {
 
 	// Load the template with front-matter and raw template bytes
 	tpl.frontMatter, tpl.templateBytes, tpl.err = t.vue.loader.loadFragment(filename)
+	if tpl.err != nil {
+		// the file cannot be loaded: the parsed copy of an earlier version must not survive
+		t.vue.forgetTemplate(filename)
+	}
 	tpl.filename = filename
 	tpl.filenameLoaded = true
 
